@@ -28,7 +28,7 @@ func init() {
 		Run:      runC05,
 		Explanation: "Decides structural necessary conditions of 'one owner per token; lookups never see a broken index': (R1) lockset analysis of ring.Ring: every access to the ring descriptor, the token index, the per-zone counters and the subring caches happens with Ring.mtx held on the same object (read lock for reads, write lock for writes; helper functions get inferred requires-lock summaries that are demanded at their call sites; freshly allocated rings are exempt until published); " +
 			"(R2) the token index fields are only written by functions that write the whole group together with ringDesc inside one critical section (or on a fresh object); (R3) the collision winner in resolveConflicts is a function of the two entries only: decision table over leaving flags × identifier order equals 'leaving loses to non-leaving, else smaller identifier wins'; LEFT entries are skipped; (R4) normalisation dominates the merge loop and resolveConflicts runs whenever tokens changed and conflicts exist, on the map that is stored back; " +
-			"(R5) tokensEqual is an element-wise comparison guarded by a length check (no identity shortcut that ignores length). Also: (R6) first-element reads of token lists are guarded by a non-emptiness check; (R7) normalizeIngestersMap leaves every token list sorted in the map (in place, or written back on every path); (R8) no selection loop over tokens starts from the extreme value of the domain (shared with C14.R7); (R9) token conflicts are detected on the token alone (whatever the zones of its holders); (R10) the token→owner index is immutable once published (shared with C13.R7); (R11) the k-way token merge never drops a token: an ended sequence does not beat a live one holding the end marker's value (shared with C14.R3); (R12) a subring is selected and assembled under one hold of the ring lock: token lists, shared index and topology stamp describe the same ring state. NOT decided: the inductive invariant itself over all reachable states, absence of implicit runtime panics.",
+			"(R5) tokensEqual is an element-wise comparison guarded by a length check (no identity shortcut that ignores length). Also: (R6) first-element reads of token lists are guarded by a non-emptiness check; (R7) normalizeIngestersMap leaves every token list sorted in the map (in place, or written back on every path); (R8) no selection loop over tokens starts from the extreme value of the domain (shared with C14.R7); (R9) token conflicts are detected on the token alone (whatever the zones of its holders); (R10) the token→owner index is immutable once published (shared with C13.R7); (R11) the k-way token merge never drops a token: an ended sequence does not beat a live one holding the end marker's value (shared with C14.R3); (R12) a subring is selected and assembled under one hold of the ring lock: token lists, shared index and topology stamp describe the same ring state. (R13) every loop of the package that compares two lists element by element (RingCompare's token comparison, tokensEqual, …) visits every index — a position left out makes a changed token invisible to the shortcut that keeps the old token index. NOT decided: the inductive invariant itself over all reachable states, absence of implicit runtime panics.",
 	}
 }
 
@@ -66,6 +66,7 @@ func runC05(c *core.Ctx) {
 	c.Rule("R11", "the k-way token merge never drops a token: an ended sequence does not beat a live one holding the end marker's value (shared with C14.R3)", 1)
 	c.Rule("R12", "a subring is selected and assembled under one hold of the ring lock: token lists, shared index and topology stamp describe the same ring state", 3)
 	c.Rule("R6", "first-element reads of token lists are guarded by a non-emptiness check", 1)
+	c.Rule("R13", "every element-wise list comparison of package ring visits every index (the equality shortcut that keeps the token index compares all tokens)", 2)
 	pkg := c.Prog.Pkg("ring")
 	if pkg == nil {
 		c.Miss("R1", "pkg=ring", "not loaded")
@@ -205,6 +206,7 @@ func runC05(c *core.Ctx) {
 	c14ExtremumAs(c, pkg, "R8")
 	c14MergeMarkerAs(c, pkg, "R11")
 	c05Snapshot(c, pkg, "R12")
+	pairwiseLoopsAs(c, pkg, "R13", 2)
 }
 
 func isFreshBase(fn *an.Fn, base ast.Expr) bool {
